@@ -287,6 +287,8 @@ class ChainPlugin:
 
         def delayed(i, e, undelayed):
             n = order_of(e)
+            if n == 0:
+                return undelayed()        # round((d/s)^2) = 0: no stage at all, the edge reads its source directly
             rate = F(n) / F(e.delay)
             sn, so, sv = e.src.rsplit('/', 2)
             if e.template:
